@@ -218,6 +218,10 @@ func (s *shaper) slice(v ssa.Value) shape {
 		if bi, ok := x.Call.Value.(*ssa.Builtin); ok && bi.Name() == "append" && len(x.Call.Args) == 2 {
 			return append(s.slice(x.Call.Args[0]), s.slice(x.Call.Args[1])...)
 		}
+		// binary.LittleEndian.AppendUintN(base, v): base followed by the N/8 bytes of v
+		if base, fields, ok := appendUint(&x.Call); ok {
+			return append(s.slice(base), fields...)
+		}
 		return shape{{Kind: bOpaque, N: -1, Desc: shortCallee(&x.Call), Fn: x.Call.StaticCallee()}}
 	case *ssa.Extract:
 		if call, ok := x.Tuple.(*ssa.Call); ok {
@@ -712,4 +716,49 @@ func findCallOnPath(p *pathInfo, callee *ssa.Function) *ssa.Call {
 		}
 	}
 	return nil
+}
+
+// appendUint recognises encoding/binary's ByteOrder.AppendUint16/32/64(base, v): the base slice
+// and the bytes appended to it.
+func appendUint(cc *ssa.CallCommon) (ssa.Value, shape, bool) {
+	name := calleeName(cc)
+	if !strings.Contains(name, "encoding/binary") {
+		return nil, nil, false
+	}
+	var width int
+	switch {
+	case strings.HasSuffix(name, "AppendUint16"):
+		width = 2
+	case strings.HasSuffix(name, "AppendUint32"):
+		width = 4
+	case strings.HasSuffix(name, "AppendUint64"):
+		width = 8
+	default:
+		return nil, nil, false
+	}
+	args := cc.Args
+	if len(args) == 3 {
+		args = args[1:]
+	}
+	if len(args) != 2 {
+		return nil, nil, false
+	}
+	be := strings.Contains(name, "bigEndian")
+	v := args[1]
+	for {
+		cv, ok := v.(*ssa.Convert)
+		if !ok {
+			break
+		}
+		v = cv.X
+	}
+	var out shape
+	for i := 0; i < width; i++ {
+		sh := 8 * i
+		if be {
+			sh = 8 * (width - 1 - i)
+		}
+		out = append(out, bElem{Kind: bField, V: v, Shift: sh, BE: be})
+	}
+	return args[0], out, true
 }
